@@ -507,7 +507,9 @@ def check_key_val(key: str, val: Any, deprecations: dict = deprecations) -> tupl
             new_val = val_aliases[val]
 
     if key == "device":
-        if "cpu" in str(new_val):
+        dev_str = str(new_val)
+        if dev_str == "cpu" or (dev_str.startswith("cpu:") and dev_str[4:].isdigit()):
+            # "cpu", torch.device("cpu"), "cpu:0" (no torch needed); anything else is validated
             new_val = "cpu"
         else:
             new_val, gpu_id = validate_device(new_val)
